@@ -398,6 +398,7 @@ pub fn run_c18(run: &mut Run, replay: Option<&std::path::Path>) -> anyhow::Resul
         let len = 5 + rng.below(if run.quick() { 40 } else { 200 });
         let script = replay_ops.clone();
         let work = run.work.clone();
+        let quick_marks = run.quick();
         let _ = std::fs::create_dir_all(&work);
         let res: anyhow::Result<Vec<(String, String, Option<String>)>> = rt.block_on(async {
             let mut out: Vec<(String, String, Option<String>)> = vec![];
@@ -462,8 +463,9 @@ pub fn run_c18(run: &mut Run, replay: Option<&std::path::Path>) -> anyhow::Resul
                         O::Cancel(r, p)
                     }
                 };
-                // a hang inside the layer is attributed to the history so far plus this op
-                {
+                // a hang inside the layer is attributed to the history so far plus this op (quick tier: before every
+                // op; thorough tier: every 16th op, 13 million file writes would dominate the run)
+                if quick_marks || step % 16 == 1 {
                     let next = match &o {
                         O::Arrive(r, p) => format!("inflight.arrive r={r} peer={}", p.map(|x| x.to_string()).unwrap_or_else(|| "none".into())),
                         O::Finish(r, p, ok) => format!("inflight.finish r={r} peer={p} ok={ok}"),
